@@ -14,7 +14,10 @@ Definition schar := (Z * Z)%type.
 
 Inductive item : Type :=
 | ITxt (cs : list schar)
-| IWrap (n : Z)                       (* source line wrap inside text: LF + n spaces; shows as one space *)
+| IWrap (n : Z)                       (* source line wrap inside text: a line end (n/100: 0 LF, 1 CRLF, 2 CR)
+                                         + (n mod 100) spaces; shows as one space *)
+| IEnt (name : str) (c : Z)           (* SAMI/HTML: the named reference &name; (exact, case-sensitive name) for the
+                                         character c - the pair comes from the HTML entity list, not from pycaption *)
 | IBr
 | IOpen (k : Z)
 | IClose (k : Z)
@@ -33,6 +36,7 @@ Fixpoint display_aux (items : list item) (cur : str) : list str :=
   | [] => [cur]
   | ITxt cs :: t => display_aux t (cur ++ chars cs)
   | IWrap _ :: t => display_aux t (cur ++ [32])
+  | IEnt _ c :: t => display_aux t (cur ++ [c])
   | IBr :: t => cur :: display_aux t []
   | IOpen _ :: t => display_aux t cur
   | IClose _ :: t => display_aux t cur
@@ -108,11 +112,14 @@ Definition attrs_text (a : list (str * str)) : str :=
   concat (map (fun kv => lit " " ++ fst kv ++ lit "=""" ++ snd kv ++ lit """") a).
 
 Definition spaces (n : Z) : str := repeat 32 (Z.to_nat n).
+Definition wrap_text (n : Z) : str :=
+  (if n / 100 =? 1 then [13; 10] else if n / 100 =? 2 then [13] else [10]) ++ spaces (n mod 100).
 
 Definition ser_item (fmt : Z) (it : item) : str :=
   match it with
   | ITxt cs => spell_all fmt cs
-  | IWrap n => if (fmt =? F_DFXP) || (fmt =? F_SAMI) then [10] ++ spaces n else [32]
+  | IWrap n => if (fmt =? F_DFXP) || (fmt =? F_SAMI) then wrap_text n else [32]
+  | IEnt n c => if fmt =? F_SAMI then lit "&" ++ n ++ lit ";" else [c]
   | IBr => if fmt =? F_DFXP then lit "<br/>" else if fmt =? F_SAMI then lit "<br>"
            else if fmt =? F_MDVD then lit "|" else [10]
   | IOpen k =>
@@ -148,7 +155,8 @@ Definition ev_of_char (sc : schar) : hev :=
 Definition ev_of_item (it : item) : list hev :=
   match it with
   | ITxt cs => map ev_of_char cs
-  | IWrap n => [EvData ([10] ++ spaces n)]
+  | IWrap n => [EvData (wrap_text n)]
+  | IEnt n _ => [EvEntity n]
   | IBr => [EvStart (lit "br") []]
   | IOpen k => let (n, a) := tag_of F_SAMI k in [EvStart n a]
   | IClose k => [EvEnd (fst (tag_of F_SAMI k))]
@@ -184,7 +192,8 @@ Fixpoint toks_aux (fmt : Z) (items : list item) (cur : str) (out : list xtok) : 
   match items with
   | [] => rev (flush_text cur out)
   | ITxt cs :: t => toks_aux fmt t (rev (chars cs) ++ cur) out
-  | IWrap n :: t => toks_aux fmt t (rev ([10] ++ spaces n) ++ cur) out
+  | IWrap n :: t => toks_aux fmt t (rev (wrap_text n) ++ cur) out
+  | IEnt _ c :: t => toks_aux fmt t (c :: cur) out
   | IBr :: t => toks_aux fmt t [] (TkEmpty (lit "br") [] :: flush_text cur out)
   | IOpen k :: t => let (n, a) := tag_of fmt k in toks_aux fmt t [] (TkOpen n (lower_attrs a) :: flush_text cur out)
   | IClose k :: t => toks_aux fmt t [] (TkClose (fst (tag_of fmt k)) :: flush_text cur out)
@@ -225,3 +234,29 @@ Definition read_srt (items : list item) : list TextNodes.node :=
   srt_text_nodes (split_ch 10 (serialise F_SRT items)).
 Definition read_mdvd (items : list item) : list TextNodes.node :=
   mdvd_text_nodes (serialise F_MDVD items).
+
+(* ---- WebVTT documents: cue identifiers, NOTE / STYLE / REGION blocks -------------------------------------- *)
+Inductive vblock : Type :=
+| BCue (ident : option str) (timing : str) (items : list item)
+| BOther (lines : list str).          (* NOTE ..., STYLE ..., REGION ... : a block without a timing line *)
+
+Definition payload_lines (items : list item) : list str := split_ch 10 (serialise F_VTT items).
+
+Definition block_lines (b : vblock) : list str :=
+  match b with
+  | BCue ident timing items => (match ident with Some i => [i] | None => [] end) ++ timing :: payload_lines items
+  | BOther ls => ls
+  end.
+
+(* header lines (first = WEBVTT ...), a blank line, then the blocks, each followed by `gap` >= 1 blank lines;
+   the last block may end the document without one *)
+Fixpoint blocks_lines (bs : list (vblock * nat)) : list str :=
+  match bs with
+  | [] => []
+  | (b, gap) :: t => block_lines b ++ repeat [] gap ++ blocks_lines t
+  end.
+Definition vtt_document_lines (header : list str) (bs : list (vblock * nat)) : list str :=
+  header ++ [[]] ++ blocks_lines bs.
+
+Definition cues_of (bs : list (vblock * nat)) : list (list item) :=
+  flat_map (fun bg => match fst bg with BCue _ _ items => [items] | BOther _ => [] end) bs.
